@@ -173,3 +173,19 @@ Lemma Session_Close_wins_the_flag_before_it_sends :
   happens_before "multiplex.Session.Close" (is_call "Session.closeSession") (is_call "Session.obfuscate") = true
   /\ happens_before "multiplex.Session.Close" (is_call "Session.closeSession") (is_call "switchboard.send") = true.
 Proof. split; vm_compute; reflexivity. Qed.
+
+(* ---- the pipes wake EVERY waiter (sync.Cond.Broadcast), never just one (Signal): a write may have to
+   release a reader and a parked deadline watcher alike, and a close must release every goroutine parked in
+   Read on that buffer (C12: every blocked read returns; Model/Mux.v resolves ALL pending reads of a closed
+   stream) *)
+Definition calls_in (f c : string) : bool := existsb (is_call c) (events_of f).
+Definition no_signal_in_package (pkg : string) : bool :=
+  forallb (fun fe : string * list ev =>
+             negb (prefix pkg (fst fe)) || negb (existsb (fun e : ev => seqb (fst e) "call" && ends_with ".Signal" (snd e)) (snd fe))) fn_events.
+Lemma pipes_wake_every_waiter :
+  calls_in "multiplex.streamBufferedPipe.Write" "streamBufferedPipe.rwCond.Broadcast" = true
+  /\ calls_in "multiplex.streamBufferedPipe.Close" "streamBufferedPipe.rwCond.Broadcast" = true
+  /\ calls_in "multiplex.datagramBufferedPipe.Write" "datagramBufferedPipe.rwCond.Broadcast" = true
+  /\ calls_in "multiplex.datagramBufferedPipe.Close" "datagramBufferedPipe.rwCond.Broadcast" = true
+  /\ no_signal_in_package "multiplex." = true.
+Proof. repeat split; vm_compute; reflexivity. Qed.
